@@ -69,6 +69,10 @@ pub struct Anomaly {
 }
 impl Anomaly {
     fn key(&self) -> String {
+        if self.ep.ends_with("/display") && self.class == "panic" {
+            // same key as a fatal crash of that stage (death_key)
+            return format!("{}|crash|formatting_the_returned_error", self.ep);
+        }
         format!("{}|{}|{}", self.ep, self.class, self.keymsg)
     }
 }
@@ -94,6 +98,13 @@ struct Worker {
     child: Child,
     stdin: ChildStdin,
     stdout: BufReader<ChildStdout>,
+}
+
+impl Drop for Worker {
+    fn drop(&mut self) {
+        let _ = self.child.kill();
+        let _ = self.child.wait();
+    }
 }
 
 #[derive(Clone)]
@@ -138,14 +149,13 @@ impl Exes {
             }
         }
         // the abort message is what the runtime printed last; pretty_parse output may precede it
-        let mut msg = String::new();
-        if let Some(l) = tail.iter().rev().find(|l| l.starts_with("C13-PANIC: ")) {
-            msg = l.trim_start_matches("C13-PANIC: ").to_string();
+        let msg = if let Some(l) = tail.iter().rev().find(|l| l.starts_with("C13-PANIC: ")) {
+            l.trim_start_matches("C13-PANIC: ").to_string()
         } else if let Some(l) = tail.iter().rev().find(|l| l.contains("overflowed its stack") || l.contains("stack overflow") || l.contains("memory allocation")) {
-            msg = l.to_string();
+            l.to_string()
         } else {
-            msg = d.how.clone();
-        }
+            d.how.clone()
+        };
         let msg = msg.trim().to_string();
         Some((stage, format!("{msg} [{}]", d.how)))
     }
@@ -186,10 +196,12 @@ impl Worker {
     fn read_reply(&mut self) -> Result<Reply, Death> {
         let mut r = Reply::default();
         let mut last_at = None;
-        let mut line = String::new();
+        let mut raw: Vec<u8> = Vec::new();
         loop {
-            line.clear();
-            let n = self.stdout.read_line(&mut line).unwrap_or(0);
+            raw.clear();
+            // worker lines may carry non-UTF-8 bytes (messages quoting a corrupt token)
+            let n = self.stdout.read_until(b'\n', &mut raw).unwrap_or(0);
+            let line = String::from_utf8_lossy(&raw);
             if n == 0 {
                 let how = match self.child.wait() {
                     Ok(st) => describe_status(&st),
@@ -260,7 +272,13 @@ fn death_key(exes: &Exes, profile: &str, input: &str, pretty: bool, stack: u64, 
         Some((stage, msg)) => {
             let core = msg.rsplit_once(" [").map(|x| x.0).unwrap_or(&msg);
             (
-                format!("{stage}|{class}|{}", subject::normalise_panic(core)),
+                if stage.ends_with("/display") && class == "abort" {
+                    // formatting a corrupt token is undefined behaviour: the message depends on
+                    // the build; one key per entry point (see Anomaly::key)
+                    format!("{stage}|crash|formatting_the_returned_error")
+                } else {
+                    format!("{stage}|{class}|{}", subject::normalise_panic(core))
+                },
                 format!("[{stage}] {profile} worker process died ({how}) while running this input: {msg}"),
                 Some(stage),
             )
@@ -349,6 +367,8 @@ struct Level {
     /// bit ep = skip the Display stage of that entry point (set only when re-running an input
     /// whose Display stage of that entry point has just killed a worker)
     dskip: u32,
+    /// the inputs of this level also occur in another level (not counted as new states)
+    subset: bool,
 }
 
 struct Pair {
@@ -415,12 +435,12 @@ fn process_range(sh: &Shared, pair: &mut Pair, lvl: &Level, fam: &Family, lo: u6
     let rc = pair.checked.read_reply();
     let rr = pair.release.as_mut().map(|r| r.read_reply());
     // deaths first
-    let mut died: Option<(&str, Death)> = None;
+    let mut died: Vec<(&str, Death)> = vec![];
     let rc = match rc {
         Ok(r) => Some(r),
         Err(d) => {
             pair.checked = respawn(sh.exes, "checked");
-            died = Some(("checked", d));
+            died.push(("checked", d));
             None
         }
     };
@@ -428,60 +448,78 @@ fn process_range(sh: &Shared, pair: &mut Pair, lvl: &Level, fam: &Family, lo: u6
         Some(Ok(r)) => Some(r),
         Some(Err(d)) => {
             pair.release = Some(respawn(sh.exes, "release"));
-            if died.is_none() {
-                died = Some(("release", d));
-            }
+            died.push(("release", d));
             None
         }
         None => None,
     };
-    if let Some((profile, d)) = died {
-        let killer = match d.last_at {
-            Some(i) => Some((i, d.how.clone())),
-            None => find_killer(sh.exes, profile, lvl, lo, hi),
-        };
-        match killer {
-            Some((k, how)) if k >= lo && k < hi => {
-                let input = fam.input(k);
-                let (key, msg, stage) = death_key(sh.exes, profile, &input, lvl.pretty, lvl.stack, lvl.dskip, &how);
-                sh.agg.lock().unwrap().add(&key, profile, 1, input, lvl, k, msg);
-                rep.count("worker_deaths", 1);
-                match stage.as_deref().and_then(display_bit) {
-                    Some(bit) if lvl.dskip & bit == 0 => {
-                        // observe the remaining stages of this input with the fatal Display stage masked
-                        let mut l2 = lvl.clone();
-                        l2.dskip |= bit;
-                        process_range(sh, pair, &l2, fam, k, k + 1, rep);
-                    }
-                    _ => {
-                        rep.count(&format!("inputs:{}", lvl.name), 1);
-                        rep.count("inputs_not_fully_observed_after_worker_death", 1);
-                        rep.states += 1;
-                    }
+    if !died.is_empty() {
+        // the earliest killer input of the range (either profile)
+        let mut killers: Vec<(u64, &str, String)> = vec![];
+        for (profile, d) in &died {
+            let k = match d.last_at {
+                Some(i) => Some((i, d.how.clone())),
+                None if lo + 1 == hi => Some((lo, d.how.clone())),
+                None => find_killer(sh.exes, profile, lvl, lo, hi),
+            };
+            match k {
+                Some((k, how)) if k >= lo && k < hi => killers.push((k, profile, how)),
+                _ => {
+                    rep.notes.push(format!(
+                        "level {}: {profile} worker died on range {lo}..{hi} ({}) but the death did not recur under trace; range re-run",
+                        lvl.name, d.how
+                    ));
+                    rep.count("worker_deaths_not_recurring", 1);
                 }
-                process_range(sh, pair, lvl, fam, lo, k, rep);
-                process_range(sh, pair, lvl, fam, k + 1, hi, rep);
-            }
-            _ => {
-                rep.notes.push(format!(
-                    "level {}: {profile} worker died on range {lo}..{hi} ({}) but the death did not recur under trace; range re-run",
-                    lvl.name, d.how
-                ));
-                rep.count("worker_deaths_not_recurring", 1);
-                // one retry; if it dies again without a culprit this is a machinery problem
-                static RETRIES: std::sync::atomic::AtomicU64 = std::sync::atomic::AtomicU64::new(0);
-                if RETRIES.fetch_add(1, std::sync::atomic::Ordering::Relaxed) > 20 {
-                    eprintln!("ENGINE-ERROR: workers keep dying without an identifiable input");
-                    std::process::exit(2);
-                }
-                process_range(sh, pair, lvl, fam, lo, hi, rep);
             }
         }
+        if killers.is_empty() {
+            // retry; if workers keep dying without a culprit this is a machinery problem
+            static RETRIES: std::sync::atomic::AtomicU64 = std::sync::atomic::AtomicU64::new(0);
+            if RETRIES.fetch_add(1, std::sync::atomic::Ordering::Relaxed) > 20 {
+                eprintln!("ENGINE-ERROR: workers keep dying without an identifiable input");
+                std::process::exit(2);
+            }
+            process_range(sh, pair, lvl, fam, lo, hi, rep);
+            return;
+        }
+        let k = killers.iter().map(|x| x.0).min().unwrap();
+        let input = fam.input(k);
+        let mut bits = 0u32;
+        let mut maskable = true;
+        for (kk, profile, how) in &killers {
+            if *kk != k {
+                continue; // a later killer is met again when the rest of the range is re-run
+            }
+            let (key, msg, stage) = death_key(sh.exes, profile, &input, lvl.pretty, lvl.stack, lvl.dskip, how);
+            sh.agg.lock().unwrap().add(&key, profile, 1, input.clone(), lvl, k, msg);
+            rep.count("worker_deaths", 1);
+            match stage.as_deref().and_then(display_bit) {
+                Some(bit) if lvl.dskip & bit == 0 => bits |= bit,
+                _ => maskable = false,
+            }
+        }
+        if maskable && bits != 0 {
+            // observe the remaining stages of this input with the fatal Display stage(s) masked
+            let mut l2 = lvl.clone();
+            l2.dskip |= bits;
+            process_range(sh, pair, &l2, fam, k, k + 1, rep);
+        } else {
+            rep.count(&format!("inputs:{}", lvl.name), 1);
+            rep.count("inputs_not_fully_observed_after_worker_death", 1);
+            if !lvl.subset {
+                rep.states += 1;
+            }
+        }
+        process_range(sh, pair, lvl, fam, lo, k, rep);
+        process_range(sh, pair, lvl, fam, k + 1, hi, rep);
         return;
     }
     let rc = rc.unwrap();
     // accounting from the checked worker
-    rep.states += rc.n;
+    if !lvl.subset {
+        rep.states += rc.n;
+    }
     rep.evaluations += rc.n * subject::N_EP as u64;
     rep.transitions += rc.calls;
     rep.count(&format!("inputs:{}", lvl.name), rc.n);
@@ -562,12 +600,14 @@ fn run_level(ctx: &Ctx, exes: &Exes, agg: &Mutex<Agg>, lvl: &Level) -> Report {
     assert_eq!(fam.size(), lvl.total);
     let nchunks = lvl.total.div_ceil(lvl.chunk);
     let sh = Shared { exes, agg };
+    let t0 = std::time::Instant::now();
     let mut rep = ctx.par_range(
         &lvl.name,
         nchunks,
         1,
         || {
-            let pair = POOL.lock().unwrap().pop().unwrap_or_else(|| {
+            let pooled = POOL.lock().unwrap().pop();
+            let pair = pooled.unwrap_or_else(|| {
                 let checked = respawn(exes, "checked");
                 let release = exes.release.as_ref().map(|_| respawn(exes, "release"));
                 Pair { checked, release }
@@ -592,8 +632,8 @@ fn run_level(ctx: &Ctx, exes: &Exes, agg: &Mutex<Agg>, lvl: &Level) -> Report {
     if let Some(l) = rep.levels.last_mut() {
         let completed = l["completed"].as_bool().unwrap_or(false) && inputs == lvl.total;
         *l = json!({"level": lvl.name, "family": lvl.family, "cases": inputs, "total": lvl.total,
-                    "chunks_done": l["cases"], "chunks_total": nchunks, "completed": completed,
-                    "pretty_parse": lvl.pretty, "stack_bytes": lvl.stack, "display_skipped_on_quarantined_inputs": lvl.quar,
+                    "chunks_done": l["cases"], "chunks_total": nchunks, "completed": completed, "wall_s": (t0.elapsed().as_secs_f64() * 10.0).round() / 10.0,
+                    "pretty_parse": lvl.pretty, "inputs_also_in_another_level": lvl.subset, "stack_bytes": lvl.stack, "display_skipped_on_quarantined_inputs": lvl.quar,
                     "profiles": if exes.release.is_some() { json!(["checked", "release"]) } else { json!(["checked"]) }});
         if !completed {
             rep.exhaustive = false;
@@ -604,52 +644,66 @@ fn run_level(ctx: &Ctx, exes: &Exes, agg: &Mutex<Agg>, lvl: &Level) -> Report {
 }
 
 /// Informational: smallest thread stack class at which every depth-128 sentence survives.
-fn stack_classes(exes: &Exes, agg: &Mutex<Agg>, rep: &mut Report) {
+fn stack_classes_profile(exes: &Exes, agg: &Mutex<Agg>, profile: &str) -> (Report, u64) {
+    let mut rep = Report::new();
     let fam = Family::parse("nest").unwrap();
     let templates = families::nest_template_names();
     let classes: [(u64, &str); 3] = [(256 * 1024, "256KiB"), (MIB, "1MiB"), (8 * MIB, "8MiB")];
     let mut cases = 0u64;
-    for profile in ["checked", "release"] {
-        if exes.exe(profile).is_none() {
-            continue;
-        }
-        let mut w = respawn(exes, profile);
-        let mut need: BTreeMap<&str, Vec<String>> = BTreeMap::new();
-        for (t, tname) in templates.iter().enumerate() {
-            let idx = (t as u64) * families::NEST_DEPTH + (families::NEST_DEPTH - 1);
-            let mut survived_at = None;
-            for (bytes, cname) in classes {
-                let lvl = Level { name: format!("nest128@{cname}"), family: "nest".into(), total: fam.size(), chunk: 1, pretty: true, stack: bytes, sub: 1, quar: true, dskip: 0 };
-                w.send(&run_cmd(&lvl, idx, idx + 1, "run"));
-                cases += 1;
-                match w.read_reply() {
-                    Ok(r) => {
-                        rep.transitions += r.calls;
-                        survived_at = Some(cname);
-                        break;
-                    }
-                    Err(d) => {
-                        w = respawn(exes, profile);
-                        rep.count(&format!("nest128_died.{profile}.{cname}"), 1);
-                        if bytes >= DEFAULT_STACK {
-                            let input = fam.input(idx);
-                            let (key, msg, _) = death_key(exes, profile, &input, true, bytes, 0, &d.how);
-                            agg.lock().unwrap().add(&key, profile, 1, input, &lvl, idx, format!("nesting depth 128 ({tname}) on an 8 MiB stack: {msg}"));
-                        }
+    let mut w = respawn(exes, profile);
+    let mut need: BTreeMap<&str, Vec<String>> = BTreeMap::new();
+    for (t, tname) in templates.iter().enumerate() {
+        let idx = (t as u64) * families::NEST_DEPTH + (families::NEST_DEPTH - 1);
+        let mut survived_at = None;
+        for (bytes, cname) in classes {
+            let lvl = Level { name: format!("nest128@{cname}"), family: "nest".into(), total: fam.size(), chunk: 1, pretty: true, stack: bytes, sub: 1, quar: true, dskip: 0, subset: true };
+            w.send(&run_cmd(&lvl, idx, idx + 1, "run"));
+            cases += 1;
+            match w.read_reply() {
+                Ok(r) => {
+                    rep.transitions += r.calls;
+                    survived_at = Some(cname);
+                    break;
+                }
+                Err(d) => {
+                    w = respawn(exes, profile);
+                    rep.count(&format!("nest128_died.{profile}.{cname}"), 1);
+                    if bytes >= DEFAULT_STACK {
+                        let input = fam.input(idx);
+                        let (key, msg, _) = death_key(exes, profile, &input, true, bytes, 0, &d.how);
+                        agg.lock().unwrap().add(&key, profile, 1, input, &lvl, idx, format!("nesting depth 128 ({tname}) on an 8 MiB stack: {msg}"));
                     }
                 }
             }
-            let c = survived_at.unwrap_or(">8MiB");
-            rep.count(&format!("nest128_min_stack.{profile}.{c}"), 1);
-            if c != "256KiB" {
-                need.entry(c).or_default().push(tname.clone());
-            }
         }
-        for (c, ts) in need {
-            rep.notes.push(format!("depth 128 needs a {c} thread stack in the {profile} build for: {}", ts.join(", ")));
+        let c = survived_at.unwrap_or(">8MiB");
+        rep.count(&format!("nest128_min_stack.{profile}.{c}"), 1);
+        if c != "256KiB" {
+            need.entry(c).or_default().push(tname.clone());
         }
     }
-    rep.level("nest128-stack-classes(informational)", cases, true);
+    for (c, ts) in need {
+        rep.notes.push(format!("depth 128 needs a {c} thread stack in the {profile} build for: {}", ts.join(", ")));
+    }
+    (rep, cases)
+}
+
+/// Informational: smallest thread stack class at which every depth-128 sentence survives.
+fn stack_classes(exes: &Exes, agg: &Mutex<Agg>, rep: &mut Report) {
+    let mut cases = 0;
+    let results: Vec<(Report, u64)> = std::thread::scope(|sc| {
+        let hs: Vec<_> = ["checked", "release"]
+            .into_iter()
+            .filter(|p| exes.exe(p).is_some())
+            .map(|p| sc.spawn(move || stack_classes_profile(exes, agg, p)))
+            .collect();
+        hs.into_iter().map(|h| h.join().expect("stack class thread")).collect()
+    });
+    for (r, c) in results {
+        rep.merge(r);
+        cases += c;
+    }
+    rep.level("iv-nest128-stack-classes(informational)", cases, true);
 }
 
 // ---------------------------------------------------------------------------------------
@@ -680,7 +734,7 @@ fn observe_literal(exes: &Exes, profile: &str, input: &str, pretty: bool, stack:
 }
 
 /// All violation keys observable on one literal input (both profiles + comparison).
-fn observe_all(exes: &Exes, input: &str, pretty: bool, stack: u64, dskip: u32) -> BTreeMap<String, String> {
+fn observe_all(exes: &Exes, input: &str, pretty: bool, stack: u64, dskip: u32, verbose: bool) -> BTreeMap<String, String> {
     let mut keys = BTreeMap::new();
     let c = observe_literal(exes, "checked", input, pretty, stack, dskip);
     let r = observe_literal(exes, "release", input, pretty, stack, dskip);
@@ -693,6 +747,11 @@ fn observe_all(exes: &Exes, input: &str, pretty: bool, stack: u64, dskip: u32) -
             if let Some(code) = code {
                 codes.push(code.clone());
             }
+        }
+    }
+    for (p, o) in [("checked", &c), ("release", &r)] {
+        if let (true, Some((_, Some(code)))) = (verbose, o) {
+            println!("observed ({p}): {}", subject::describe_codes(code));
         }
     }
     if codes.len() == 2 && codes[0] != codes[1] && !subject::codes_have_panic(&codes[0]) && !subject::codes_have_panic(&codes[1]) {
@@ -730,7 +789,7 @@ fn replay(exes: &Exes, path: &str) -> i32 {
     println!("replaying input {:?} ({} bytes), stack {} bytes, profiles: checked{}", input, input.len(), stack, if exes.release.is_some() { " + release" } else { "" });
     println!("expected: every entry point returns Ok or Err (diagnostic label within input), identically in both profiles");
     let dskip = case["display_skip_mask"].as_u64().unwrap_or(0) as u32;
-    let keys = observe_all(exes, input, pretty, stack, dskip);
+    let keys = observe_all(exes, input, pretty, stack, dskip, true);
     let mut hit = false;
     for (k, m) in &keys {
         let same = want.is_empty() || k == want || k.starts_with(want) || want.starts_with(k.as_str());
@@ -813,7 +872,7 @@ fn main() {
         std::process::exit(replay(&exes, &path));
     }
 
-    let ctx = Ctx::new("C13", tier, tier.pick(55, 1140));
+    let ctx = Ctx::new("C13", tier, tier.pick(48, 1100));
     let mut rep = Report::new();
     rep.notes.extend(notes);
     if exes.release.is_none() {
@@ -823,30 +882,35 @@ fn main() {
 
     let full = families::TOKENS_FULL.len();
     let core = families::TOKENS_CORE.len();
-    // cl: max characters; fp/kp: FULL/CORE-alphabet lengths that also get pretty_parse;
-    // fl: max FULL-alphabet length; kl: CORE-alphabet length of the longest sequences
-    let (cl, fp, kp, fl, kl) = match tier {
-        Tier::Quick => (3u32, 2u32, 3u32, 3u32, 4u32),
-        Tier::Thorough => (4, 3, 4, 4, 5),
+    // "(pretty)" levels also call pretty_parse / pretty_wrap (0.05-3 ms per input, it renders to
+    // stderr); the other levels check parse, follow-ups, Display and report() only.
+    // cp/cl: max characters with/without pretty; fp/fl: same for FULL-alphabet sequences;
+    // kp: CORE-alphabet length with pretty; kl: CORE-alphabet length of the longest sequences
+    let (cp, cl, fp, fl, kp, kl) = match tier {
+        Tier::Quick => (2u32, 3u32, 2u32, 3u32, 3u32, 4u32),
+        Tier::Thorough => (3, 4, 3, 4, 3, 5),
     };
     let mk = |name: String, family: String, chunk: u64, sub: u64, pretty: bool, stack: u64, quar: bool| {
         let total = Family::parse(&family).expect("family").size();
-        Level { name, family, total, chunk, pretty, stack, sub, quar, dskip: 0 }
+        Level { subset: ["quar", "nestP", "mutS"].contains(&family.as_str()) || name.starts_with("ii-tokens-core") && pretty, name, family, total, chunk, pretty, stack, sub, quar, dskip: 0 }
     };
     let mut levels = vec![
-        mk("vi-non-utf8-string-literals".into(), "quar".into(), 1, 1, true, DEFAULT_STACK, false),
-        mk("iv-nesting-1..128@64MiB".into(), "nest".into(), 64, 16, true, NEST_STACK, true),
-        mk("iii-E3-seed-mutants".into(), "mut".into(), 256, 32, true, DEFAULT_STACK, true),
-        mk("v-annotated-numerals".into(), "ann".into(), 128, 64, true, DEFAULT_STACK, true),
-        mk(format!("i-chars<={cl}"), format!("chars:0:{cl}"), 4096, 256, true, DEFAULT_STACK, true),
-        mk(format!("ii-tokens-full<={fp}(pretty)"), format!("toksF:0:{fp}"), 2048, 256, true, DEFAULT_STACK, true),
+        mk("vi-non-utf8-string-literals(pretty)".into(), "quar".into(), 1, 1, true, DEFAULT_STACK, false),
+        mk("iv-nesting-1..128@64MiB".into(), "nest".into(), 64, 32, tier == Tier::Thorough, NEST_STACK, true),
+        mk("iv-nesting-{1,2,3,64,128}@64MiB(pretty)".into(), "nestP".into(), 8, 8, true, NEST_STACK, true),
+        mk("iii-E3-seed-mutants".into(), "mut".into(), 512, 128, tier == Tier::Thorough, DEFAULT_STACK, true),
+        mk("iii-E3-structural-mutants(pretty)".into(), "mutS".into(), 64, 32, true, DEFAULT_STACK, true),
+        mk("v-annotated-numerals(pretty)".into(), "ann".into(), 64, 64, true, DEFAULT_STACK, true),
+        mk(format!("i-chars<={cp}(pretty)"), format!("chars:0:{cp}"), 1024, 256, true, DEFAULT_STACK, true),
+        mk(format!("i-chars={}..{cl}", cp + 1), format!("chars:{}:{cl}", cp + 1), 16384, 2048, false, DEFAULT_STACK, true),
+        mk(format!("ii-tokens-full<={fp}(pretty)"), format!("toksF:0:{fp}"), 1024, 256, true, DEFAULT_STACK, true),
+        mk(format!("ii-tokens-full={}..{fl}", fp + 1), format!("toksF:{}:{fl}", fp + 1), 32768, 2048, false, DEFAULT_STACK, true),
+        mk(format!("ii-tokens-core={kl}"), format!("toksC:{kl}:{kl}"), 32768, 2048, false, DEFAULT_STACK, true),
     ];
-    if fl > fp {
-        levels.push(mk(format!("ii-tokens-full={}..{fl}", fp + 1), format!("toksF:{}:{fl}", fp + 1), 32768, 2048, false, DEFAULT_STACK, true));
+    if kp > fp {
+        // pretty_parse over every CORE sequence of length kp (a subset of the FULL sequences above)
+        levels.push(mk(format!("ii-tokens-core={kp}(pretty)"), format!("toksC:{kp}:{kp}"), 1024, 256, true, DEFAULT_STACK, true));
     }
-    levels.push(mk(format!("ii-tokens-core={kl}"), format!("toksC:{kl}:{kl}"), 32768, 2048, false, DEFAULT_STACK, true));
-    // pretty_parse over every CORE sequence of length kp (a subset of the FULL sequences above)
-    levels.push(mk(format!("ii-tokens-core={kp}(pretty)"), format!("toksC:{kp}:{kp}"), 2048, 256, true, DEFAULT_STACK, true));
     for lvl in &levels {
         if ctx.timed_out() {
             rep.level(&lvl.name, 0, false);
@@ -860,10 +924,23 @@ fn main() {
 
     // re-check every aggregated violation once on a fresh worker, then hand it to the engine
     let agg = agg.into_inner().unwrap();
-    for (key, e) in &agg.entries {
+    let entries: Vec<(&String, &AggEntry)> = agg.entries.iter().collect();
+    let confirmed_all: Vec<bool> = std::thread::scope(|sc| {
+        let hs: Vec<_> = entries
+            .iter()
+            .map(|(key, e)| {
+                let exes = &exes;
+                sc.spawn(move || {
+                    let nkey = mk_key(key);
+                    let again = observe_all(exes, &e.input, e.pretty, e.stack, e.dskip, false);
+                    again.keys().any(|k| *k == nkey || nkey.starts_with(k.as_str()) || k.starts_with(nkey.as_str()))
+                })
+            })
+            .collect();
+        hs.into_iter().map(|h| h.join().unwrap_or(false)).collect()
+    });
+    for ((key, e), confirmed) in entries.iter().zip(confirmed_all) {
         let nkey = mk_key(key);
-        let again = observe_all(&exes, &e.input, e.pretty, e.stack, e.dskip);
-        let confirmed = again.keys().any(|k| *k == nkey || nkey.starts_with(k.as_str()) || k.starts_with(nkey.as_str()));
         if !confirmed {
             rep.notes.push(format!("violation {nkey} did not recur when its input was re-run alone (kept, flagged recheck=false)"));
         }
@@ -896,15 +973,15 @@ fn main() {
 
     let rule = format!(
         "A case is one input string sent to all {n_ep} entry points ({eps}) in a checked-profile worker process and, when available, a release-profile worker process; \
-         evaluations = inputs x entry points (checked); transitions = calls into the subject (both profiles); traces_validated = inputs whose outcome vectors (per entry point: parse Ok/Err/panic, follow-up Ok/Err/panic, diagnostic label validity, pretty_parse outcome) were compared between the two profiles. \
+         states = distinct inputs (levels flagged inputs_also_in_another_level are not counted again); evaluations = inputs x entry points per level (checked); transitions = calls into the subject (both profiles); traces_validated = inputs whose outcome vectors (per entry point: parse Ok/Err/panic, follow-up Ok/Err/panic, diagnostic label validity, pretty_parse outcome) were compared between the two profiles. \
          Per entry point: parse; on Ok the follow-ups (IDLProg: check_prog(&mut TypeEnv::new()); IDLType/IDLTypes: ast_to_type per type; IDLInitArgs: check_init_args; Test: check_prog of the defs, ast_to_type of every assertion type, Input::parse of textual left inputs (binary inputs are not decoded); args/value: to_string, get_types/value_ty, annotate_types(true, &TypeEnv::new(), own types), to_string of the result); \
          on Err: the error must be Error::Parse, Display must return, report() must return one label with start <= end <= len+1, and (levels marked pretty_parse) pretty_parse::<T>(\"name\", input) / pretty_wrap must return Err as well. Every call is wrapped in catch(); a dead worker is bisected to the input. \
          Non-trivial (distinct_nontrivial) = inputs accepted (parse Ok) by at least one entry point. \
-         Families: (i) chars:0:{cl} = all strings of 0..={cl} characters over the {nc}-character alphabet {chars:?}; \
-         (ii) toksF:0:{fl} = all sequences of 0..={fl} lexemes over the FULL alphabet ({full} lexemes) joined by one space, plus toksC:{kl}:{kl} = all sequences of exactly {kl} lexemes over the CORE alphabet ({core} lexemes, a subset of FULL); pretty_parse is called on the levels marked pretty_parse=true in `levels` (FULL sequences of <= {fp} lexemes and CORE sequences of {kp}), report() and Display on all; FULL = {tf:?}; CORE = {tc:?}; \
+         Families (a level = a family range; see `levels` for exact ranges and counts): (i) chars:0:{cl} = all strings of 0..={cl} characters over the {nc}-character alphabet {chars:?}; \
+         (ii) toksF:0:{fl} = all sequences of 0..={fl} lexemes over the FULL alphabet ({full} lexemes) joined by one space, plus toksC:{kl}:{kl} = all sequences of exactly {kl} lexemes over the CORE alphabet ({core} lexemes, a subset of FULL); pretty_parse is called on the levels marked pretty_parse=true in `levels` (their names end in `(pretty)`), report() and Display on all; FULL = {tf:?}; CORE = {tc:?}; \
          Quarantine: on levels marked display_skipped_on_quarantined_inputs the Display (to_string) stage of errors is skipped for inputs containing a backslash followed by two hex digits >= 0x80 (counter display_stage_skipped_on_quarantined_inputs), because formatting an error that carries a non-UTF-8 text token aborts a debug-assertions build (uncatchable; a process spawn costs ~0.2 s here) and one abort per input would dominate the run; family (vi) quar = {nq} hand-written inputs with such literals in every syntactic position runs with nothing skipped (after an abort in the Display stage of one entry point the input is re-run with only that stage masked, so every entry point is observed). \
-         (iii) mut = for each of the {ns} seed sentences (arrays of lexemes, see families.rs SEEDS): the seed, every single-lexeme deletion, duplication, replacement by every FULL lexeme, and adjacent swap; \
-         (iv) nest = {nt} nesting templates x depth 1..=128 on a 64 MiB thread, plus depth 128 of every template on 256 KiB / 1 MiB / 8 MiB threads (informational except 8 MiB); templates = {tn:?}; \
+         (iii) mut = for each of the {ns} seed sentences (arrays of lexemes, see families.rs SEEDS): the seed, every single-lexeme deletion, duplication, replacement by every FULL lexeme, and adjacent swap (mutS = the same without the replacements); \
+         (iv) nest = {nt} nesting templates x depth 1..=128 on a 64 MiB thread (nestP = depths 1,2,3,64,128 of the same), plus depth 128 of every template on 256 KiB / 1 MiB / 8 MiB threads (informational except 8 MiB); templates = {tn:?}; \
          (v) ann = every numeral lexeme x sign x annotation type product `( <sign><numeral> : <type> )`. \
          Other families run on an 8 MiB thread. Violation keys = entry point | failure class | normalised panic message @ file:line (shortest failing input recorded; all failing observations counted), profile disagreements not explained by a panic are keyed on the input.",
         n_ep = subject::N_EP,
